@@ -45,13 +45,13 @@ import (
 // operations
 
 const (
-	opAppend = iota // append the next entry to the WAL (partition.WriteLog)
-	opReplicate     // one step of the local replicator (consume one entry, write rows, commit sequence)
-	opFlushMeta     // production flush procedure, step 1
-	opFlushIndex    // step 2
-	opFlushData     // step 3 (stores the replica sequence with the data, then acknowledges the WAL)
-	opWalGC         // partition.IsExpire: sync consumer-group acks to the queue, GC pages
-	opReopen        // clean restart
+	opAppend     = iota // append the next entry to the WAL (partition.WriteLog)
+	opReplicate         // one step of the local replicator (consume one entry, write rows, commit sequence)
+	opFlushMeta         // production flush procedure, step 1
+	opFlushIndex        // step 2
+	opFlushData         // step 3 (stores the replica sequence with the data, then acknowledges the WAL)
+	opWalGC             // partition.IsExpire: sync consumer-group acks to the queue, GC pages
+	opReopen            // clean restart
 	nOps
 )
 
@@ -139,12 +139,12 @@ var (
 
 type node struct {
 	metrics []string // metric names to query (those some appended entry may have created)
-	root   string
-	box    *vbox.Box
-	ctx    context.Context
-	cancel context.CancelFunc
-	wal    replica.WriteAheadLogManager
-	part   replica.Partition
+	root    string
+	box     *vbox.Box
+	ctx     context.Context
+	cancel  context.CancelFunc
+	wal     replica.WriteAheadLogManager
+	part    replica.Partition
 }
 
 var tOpen, tClose, tQuery, tReplay time.Duration
@@ -356,10 +356,14 @@ func short(p string) string {
 func installSeams() {
 	ks := kv.VerifGetSeams()
 	kv.VerifSetSeams(kv.VerifSeams{
-		RemoveDir:  func(p string) error { err := ks.RemoveDir(p); rec.At("removeDir " + short(p)); return err },
-		Remove:     func(p string) error { err := ks.Remove(p); rec.At("remove " + short(p)); return err },
-		MkDir:      func(p string) error { err := ks.MkDir(p); rec.At("mkdir " + short(p)); return err },
-		EncodeToml: func(f string, v interface{}) error { err := ks.EncodeToml(f, v); rec.At("encodeToml " + short(f)); return err },
+		RemoveDir: func(p string) error { err := ks.RemoveDir(p); rec.At("removeDir " + short(p)); return err },
+		Remove:    func(p string) error { err := ks.Remove(p); rec.At("remove " + short(p)); return err },
+		MkDir:     func(p string) error { err := ks.MkDir(p); rec.At("mkdir " + short(p)); return err },
+		EncodeToml: func(f string, v interface{}) error {
+			err := ks.EncodeToml(f, v)
+			rec.At("encodeToml " + short(f))
+			return err
+		},
 	})
 	vs := version.VerifGetSeams()
 	version.VerifSetSeams(version.VerifSeams{
@@ -414,8 +418,47 @@ func stack() string {
 	return string(buf[:runtime.Stack(buf, false)])
 }
 
+// classify tells whether the history creates a metric / tag value name while a flush cycle is in progress
+// (after flushMeta started the cycle, before flushData ended it): the known design-level finding H14.
+func classify(h history) string {
+	durM, durH := map[string]bool{}, map[string]bool{} // names covered by a completed metadata flush
+	memM, memH := map[string]bool{}, map[string]bool{} // names created so far
+	stage, appended, replicated := 0, 0, 0
+	class := "plain"
+	for _, op := range h.Ops {
+		switch op {
+		case opAppend:
+			appended++
+		case opReplicate:
+			if replicated < appended && replicated < maxEntries {
+				t := entryTarget[replicated]
+				if stage != 0 && (!durM[t[0]] || !durH[t[1]]) {
+					class = "name-created-during-flush-cycle"
+				}
+				memM[t[0]], memH[t[1]] = true, true
+				replicated++
+			}
+		case opFlushMeta:
+			stage = 1
+			for k := range memM {
+				durM[k] = true
+			}
+			for k := range memH {
+				durH[k] = true
+			}
+		case opFlushIndex:
+			stage = 2
+		case opFlushData:
+			stage = 0
+		case opReopen:
+			stage = 0
+		}
+	}
+	return class
+}
+
 func runHistory(rep *vevid.Report, h history) {
-	scen := "history=" + h.String()
+	scen := "class=" + classify(h) + " history=" + h.String()
 	viol := func(clause, site, detail string) {
 		rep.Violate(vevid.Violation{Clause: clause, Scenario: scen, Site: site, Detail: detail, Replay: h})
 	}
@@ -568,7 +611,7 @@ func mineKey(key string) bool {
 }
 
 func recoverImage(rep *vevid.Report, h history, p *vcrashfs.Point, nt note) {
-	scen := "history=" + h.String()
+	scen := "class=" + classify(h) + " history=" + h.String()
 	inflight := "none"
 	if nt.InFlight >= 0 {
 		inflight = opName[nt.InFlight]
@@ -728,9 +771,9 @@ const (
 var curated = []history{
 	{[]int{A, R, M, I, D}},
 	{[]int{A, A, R, R, M, I, D, G, O, A, R}},
-	{[]int{A, R, M, A, R, I, D}},           // a new series arrives between the metadata flush and the data flush
-	{[]int{A, A, A, R, M, R, R, I, D, G}},  // a new metric (entry 2) replicated after the metadata flush, flushed with the data
-	{[]int{A, R, M, I, A, A, R, R, D, G}},  // new series and new metric after metadata AND index flush
+	{[]int{A, R, M, A, R, I, D}},          // a new series arrives between the metadata flush and the data flush
+	{[]int{A, A, A, R, M, R, R, I, D, G}}, // a new metric (entry 2) replicated after the metadata flush, flushed with the data
+	{[]int{A, R, M, I, A, A, R, R, D, G}}, // new series and new metric after metadata AND index flush
 	{[]int{A, R, M, I, D, A, R, M, I, D, G, O}},
 	{[]int{A, A, R, M, I, D, R, O, M, I, D}},
 	{[]int{A, R, O, A, R, M, I, D, G, A, R}},
